@@ -367,6 +367,7 @@ def gen_values(ctx):
             for sep in [" ", "\t", ""]:
                 cases.append("get fv2d %s" % X(a + sep + b))
                 cases.append("get vecd %s" % X(a + sep + b))
+    cases += gen_scaled(ctx)
     for _ in range(400 if quick else 4000):
         n = rng.choice([0, 1, 2, 3, 3, 4, 8, 8, 9])
         sep = rng.choice([" ", " ", "  ", "\t", "\n"])
@@ -378,6 +379,70 @@ def gen_values(ctx):
             cases.append("get %s %s" % (ty, X(st)))
         st = sep.join(rng.choice(["a", "b c".replace(" ", sep), "", "#", "'q'"]) for _ in range(rng.choice([1, 2, 2, 3])))
         cases.append("get arrs2 %s" % X(st))
+    return cases
+
+
+def exact_decimal(fr):
+    """the finite decimal expansion of a dyadic rational (a Fraction whose denominator is a power of two)"""
+    neg, fr = fr < 0, abs(fr)
+    k = fr.denominator.bit_length() - 1
+    digits = str(fr.numerator * 5 ** k)
+    if k:
+        digits = digits.rjust(k + 1, "0")
+        digits = digits[:-k] + "." + digits[-k:]
+    return ("-" if neg else "") + digits
+
+
+def respell(rng, text):
+    """the same decimal number written with its point moved and the exponent adjusted (exactly the same value)"""
+    m = re.fullmatch(r"(-?)(\d*)\.?(\d*)(?:[eE]([+-]?\d+))?", text)
+    sign, ip, fp, ex = m.group(1), m.group(2), m.group(3), int(m.group(4) or 0)
+    digs = (ip + fp).lstrip("0") or "0"
+    ex -= len(fp)
+    z = rng.randrange(4)
+    if z == 0:
+        return "%s%se%d" % (sign, digs, ex)
+    if z == 1:
+        return "%s0.%se%+d" % (sign, digs, ex + len(digs))
+    if z == 2:
+        return "%s%s.%sE%d" % (sign, digs[0], digs[1:], ex + len(digs) - 1)
+    k = rng.randrange(1, 30)
+    return "%s%s%se%d" % (sign, digs, "0" * k, ex - k)
+
+
+def gen_scaled(ctx):
+    """audit 2 (D): floating-point texts of every magnitude -- exactly representable powers of two from the smallest
+    denormal to 2^1023 written out in full (up to 1075 characters), dyadic mantissas scaled by 2^+-300 / into the
+    denormal range, the neighbourhood of the largest finite value, 17-digit decimals at huge and tiny exponents, mixed
+    scales within one sequence -- each also re-spelled with a moved decimal point and adjusted exponent (exactly the
+    same number: the exact oracle / the exact-decimal model give both spellings the identical bits)"""
+    from fractions import Fraction
+    rng = ctx.rng("scaled")
+    nums = []
+    for e in [-1074, -1073, -1050, -1023, -1022, -1021, -600, -300, -149, -126, -64, -1, 0, 1, 24, 53, 64, 127, 128, 300, 600, 1000, 1023]:
+        nums.append(exact_decimal(Fraction(2) ** e))
+    for _ in range(60 if ctx.quick else 600):
+        mant = rng.choice([1, 3, 5, 2 ** 24 - 1, 2 ** 24 + 1, 2 ** 53 - 1, 2 ** 53 + 1, rng.randrange(1, 2 ** 53), rng.randrange(1, 2 ** 24)])
+        e = rng.choice([-1074, -1060, -1022, -350, -300, -200, -149, -140, -30, 0, 30, 100, 200, 300, 900, 970])
+        nums.append(exact_decimal(Fraction(mant) * Fraction(2) ** e * rng.choice([1, -1])))
+    for _ in range(120 if ctx.quick else 1200):
+        digs = "".join(rng.choice("0123456789") for _ in range(rng.choice([1, 2, 8, 16, 17, 18, 25])))
+        e = rng.choice([-340, -330, -324, -323, -310, -308, -300, -100, -45, -38, -20, 0, 20, 38, 39, 100, 290, 300, 307, 308, 309])
+        nums.append("%s%s.%se%d" % (rng.choice(["", "-", "+"]), digs[0], digs[1:], e))
+    cases = []
+    for a in nums:
+        cases.append("get dbl %s" % X(a))
+        if len(a) < 400:
+            cases.append("get flt %s" % X(a))
+        if not a.startswith("+"):
+            b = respell(rng, a)
+            cases.append("get dbl %s" % X(b))
+            cases.append("get flt %s" % X(b))
+    for _ in range(150 if ctx.quick else 1500):
+        items = [rng.choice(nums) for _ in range(rng.choice([1, 2, 2, 2, 3, 5]))]
+        st = rng.choice([" ", "\t", "\n", "  "]).join(items)
+        for ty in ["vecd", "fv2d", "arr2d", "vecf"]:
+            cases.append("get %s %s" % (ty, X(st)))
     return cases
 
 
@@ -396,7 +461,7 @@ def gen_argv(ctx):
     pres = [b"", b"", b"a = 5", b"a =\nb = 1", b"a.b = 1", b"[a]\nb = 1\n"]
     for _ in range(3000 if ctx.quick else 40000):
         kw = rng.choice(kws)
-        req = rng.choice([0, 1, 2, 3, 4294967295])
+        req = rng.choice([0, 1, 2, 3, 4294967295, 2147483647, 2147483648])   # audit 2 (C): `required` is unsigned: 2^31 +- 1
         args = [rng.choice(ARGV) for _ in range(rng.choice([0, 1, 2, 2, 3, 4, 5]))]
         if rng.random() < 0.5:
             args = [a for a in args if a not in ("-h", "--help")]
@@ -420,6 +485,16 @@ def gen_argv(ctx):
         if rng.random() < 0.2:
             args.append("-" + rng.choice(pool))
         cases.append("opt %s" % L(args))
+    # audit 2 (C, "capacity exceeds size"): readOptions(argc, argv) with an argv array that goes on behind argc:
+    # every vector over the vocabulary up to length 3 with every count, and random longer ones
+    for n in range(1, 4):
+        for t in itertools.product(ARGV[:12], repeat=n):
+            for k in range(0, n + 1):
+                if k < n or n == 1:
+                    cases.append("optn %d %s" % (k, L(list(t))))
+    for _ in range(1500 if ctx.quick else 15000):
+        args = [rng.choice(ARGV + ["-" + k for k in pool]) for _ in range(rng.randrange(1, 7))]
+        cases.append("optn %d %s" % (rng.randrange(0, len(args) + 1), L(args)))
     return cases
 
 
@@ -430,7 +505,7 @@ def conv32(m):
     import struct
     from fractions import Fraction
     neg, man, ex = m.group(1) == "-", int(m.group(2)), int(m.group(3))
-    if man == 0 or ex < -200:
+    if man == 0 or ex + len(str(man)) < -60:
         bits = 0
     elif ex > 60 - len(str(man)) + 20:
         return "f:overflow"
@@ -470,7 +545,7 @@ def round_doubles(line):
                 v = 0.0
             elif ex > 400 + 20 - len(str(man)):
                 raise OverflowError
-            elif ex < -800:
+            elif ex + len(str(man)) < -400:     # magnitude, not exponent: 2^-1074 written out in full is 5^1074 * 10^-1074
                 v = 0.0
             else:
                 v = float(Fraction(man) * Fraction(10) ** ex)
@@ -628,6 +703,8 @@ def case_kind(c):
 
 
 def sig_of(c, impl, spec, reason=""):
+    if reason.startswith("readOptions/readNamedOptions must neither"):
+        return "C12:argv:readonly-oversized"
     if reason.startswith("aliasing assignment"):
         return "C12:tree:alias-assign"
     if reason.startswith("copy/assignment"):
@@ -681,6 +758,24 @@ def oracle(c, impl, spec):
     if t[0] == "get" and t[1] == "dbl":
         want = spec_double(bytes.fromhex(t[2][1:]).decode("latin-1"))
         return None if want == "?" or impl == want else "the text denotes %s" % want
+    if t[0] == "get" and t[1] in ("vecd", "fv2d", "arr2d"):
+        # independent reading of a sequence of floating-point texts: the blank-separated items, each as spec_double
+        # (only where every item is a complete decimal literal: "1e" / "1.2.3" etc. are left to the model comparison)
+        toks = [x for x in re.split(r"[ \t\n\r]+", bytes.fromhex(t[2][1:]).decode("latin-1")) if x]
+        if toks and all(DBL_RE.fullmatch(x) and x.strip() == x for x in toks):
+            vals = [spec_double(x) for x in toks]
+            if "?" not in vals:
+                if t[1] != "vecd" and len(toks) != 2:
+                    want = "EXC RangeError"
+                elif any(v.startswith("EXC") for v in vals):
+                    want = "EXC RangeError"
+                else:
+                    want = "OK [" + ",".join(v[3:] for v in vals) + "]"
+                if impl != want:
+                    return "the text denotes %s" % want[:300]
+        return None
+    if t[0] in ("opt", "nopt") and av_field(impl) not in (None, "ok"):
+        return "readOptions/readNamedOptions must neither write to the argument vector nor look behind argc: " + av_field(impl)[:200]
     if t[0] == "inif":
         r = oracle_api(t, impl, spec)
         if r is not None:
@@ -695,7 +790,16 @@ def oracle(c, impl, spec):
         return None if got == sp else "tree differs from the written hierarchy: expected %s" % sp
     if spec == "?":
         return None
-    return None if impl == spec else "spec says %s" % spec
+    return None if strip_av(impl) == spec else "spec says %s" % spec
+
+
+def av_field(impl):
+    m = re.search(r" AV=(\S+)$", impl)
+    return m.group(1) if m else None
+
+
+def strip_av(impl):
+    return re.sub(r" AV=\S+$", "", impl)
 
 
 def sorted_dump(d):
@@ -841,6 +945,7 @@ def split_model(m):
 def model_matches(mm, impl):
     """Model observation: one line, or 'as found ~ repaired' where the two variants of readINITree's comment
     search (before / after fixes/C12-3.patch) differ."""
+    impl = strip_av(impl)
     if " ~ " in mm:
         a, b = mm.split(" ~ ")
         return "asis" if impl == a else ("fixed" if impl == b else None)
